@@ -50,7 +50,7 @@ PROBE = {
                                                   (b'PATH_INFO', b'/x'), (b'QUERY_STRING', b'p=1')])) + fcgi_rec(4, 1, b'') + fcgi_rec(5, 1, b''),
 }
 PROBE_BODY = b'M=474554\nS=2f70726f6265\nP=2f78\nQ=703d31\nCL=0\nB=-\nF=0,0\n'
-APPS = {b'/sync': 's', b'/async': 'a', b'/up': 'u', b'/upm': 'm', b'/probe': 'p'}
+APPS = {b'/sync': 's', b'/async': 'a', b'/up': 'u', b'/upm': 'm', b'/probe': 'p', b'/upa': 'x', b'/upt': 't'}
 
 
 # ------------------------------------------------------------------------------------------- reply classification
@@ -84,7 +84,9 @@ def replies_http(b):
         st, hdrs, body, framing, rest = r
         code = st.split(b' ')[1:2]
         code = code[0].decode('latin-1') if code else '?'
-        if framing not in ('content-length', 'chunked'):
+        if framing == 'close':
+            rest = b''      # close-delimited reply (HTTP/1.0 style): necessarily the last one
+        elif framing not in ('content-length', 'chunked'):
             out.append(('BADFRAME', None))
             break
         if code == '200':
@@ -221,7 +223,7 @@ def canon_impl(case, out):
         items.append('BADTOKEN')
     if has_reset(case):
         items = ['K']
-    calls = r['calls'][:6] if r['calls'] else []
+    calls = r['calls'][:7] if r['calls'] else []
     return ' '.join(items) + ' | calls=' + ','.join(str(x) for x in calls)
 
 
@@ -287,9 +289,9 @@ def oracle(case, out):
                     'remote_endpoint(e).ip() on a connection the peer has reset, before looking at e: ' + out[:300])
         return ('crash-' + proto, 'service process died or sanitizer report: ' + out[:1500])
     r = parse_out(case, out)
-    if r['bad'] or r['calls'] is None or len(r['calls']) != 7:
+    if r['bad'] or r['calls'] is None or len(r['calls']) != 8:
         return ('harness-output', 'unparseable harness output: ' + out[:200])
-    sync, asy, setup, main, err, end, nbytes = r['calls']
+    sync, asy, setup, main, err, end, threw, nbytes = r['calls']
     for pp, b, to in r['probes']:
         if not probe_ok(pp, b, to):
             return ('probe-not-answered-' + pp, 'a well-formed probe request on another connection was not answered correctly: %r' % b[:120])
@@ -324,6 +326,8 @@ def oracle(case, out):
         return ('handler-more-than-once-' + proto, 'upload handler main=%d setup=%d' % (main, setup))
     if nreq == 1 and err >= 1 and handled >= 1:
         return ('handler-and-error', 'request was both handled and reported as failed upload')
+    if threw > setup or (nreq == 1 and threw >= 1 and (handled >= 1 or err >= 1)):
+        return ('setup-exception-not-contained', 'set-up call threw %d times (set-ups %d) and the request was also handled %d times / reported failed %d times' % (threw, setup, handled, err))
     if end > setup:
         return ('on-end-without-setup', 'on_end_of_content %d times for %d set-ups' % (end, setup))
     return None
@@ -352,8 +356,8 @@ CL_VALUES = [b'-1', b'-0', b'+5', b'0', b'1', b'5', b'2047', b'2048', b'2049', b
 CT_VALUES = [None, b'text/plain', b'application/x-www-form-urlencoded', b'multipart/form-data; boundary=xx', b'Multipart/Form-Data; boundary=xx',
              b'multipart/form-data', b' multipart/form-data;', b'multipart /form-data', b'multipart/form-datax', b'multipart/', b'/form-data',
              b'multipart/form-data\x00x', b'\r\n multipart/form-data; boundary=b', b'multipart/mixed']
-SCRIPTS = [b'/sync', b'/async', b'/up', b'/upm']
-URIS = [b'/sync', b'/sync/', b'/syncx', b'/sync?x', b'/async/a/b?c=d', b'/up', b'/upm', b'/upmx', b'/up/x', b'/nope', b'/', b'/probe', b'//sync',
+SCRIPTS = [b'/sync', b'/async', b'/up', b'/upm', b'/upa', b'/upt']
+URIS = [b'/upa', b'/upt/x?y', b'/upax', b'/sync', b'/sync/', b'/syncx', b'/sync?x', b'/async/a/b?c=d', b'/up', b'/upm', b'/upmx', b'/up/x', b'/nope', b'/', b'/probe', b'//sync',
         b'/sync%2f', b'/SYNC', b'sync', b'*', b'http://h/sync', b'/sync\x00/zz', b'/up?\x00', b'/as', b'/syn']
 
 
